@@ -173,6 +173,153 @@ theorem C18_rebind (h : Handle) (before after : List Deriv) (fl : SessFlags) (c 
 theorem C18_session_clone (h : Handle) : h.sessionClone.ctx = h.ctx := by
   simp [Handle.sessionClone, C18_copy_facts.1]
 
+/-! ### The operation as a whole: every driver call of the handle TREE carries the bound context
+
+An operation does not walk one derivation path: callbacks derive internal handles (preload sessions,
+association saves, hooks' `tx`), issue driver calls through them and come back to the handle they
+were derived from.  `OpStep` flattens that tree: a stack of live handles, `enter d` derives a new
+handle from the current one, `leave` returns to its parent, `call` is a driver call at one of the
+call sites of `Gen.callSites` -- by `C18_sites` it hands the CURRENT handle's `Statement.Context`
+to database/sql. -/
+inductive OpStep where
+  | enter (d : Deriv)
+  | leave
+  | call
+
+structure OpState where
+  stack : List Handle     -- head = the handle the running callback works with
+  calls : List Nat        -- contexts handed to database/sql so far, newest first
+deriving Repr, DecidableEq
+
+def OpState.step (s : OpState) : OpStep → OpState
+  | .enter d => match s.stack with
+    | [] => s
+    | h :: rest => { s with stack := h.step d :: h :: rest }
+  | .leave => match s.stack with
+    | _ :: h :: rest => { s with stack := h :: rest }
+    | _ => s
+  | .call => match s.stack with
+    | [] => s
+    | h :: _ => { s with calls := h.ctx :: s.calls }
+
+def OpStep.keeps : OpStep → Prop
+  | .enter d => d.keeps
+  | _ => True
+
+def OpState.run (s : OpState) (ops : List OpStep) : OpState := ops.foldl OpState.step s
+
+/-- the operation started from handle `h` -/
+def runOp (h : Handle) (ops : List OpStep) : OpState := OpState.run { stack := [h], calls := [] } ops
+
+/-- what database/sql lets through to the driver (ASSUMPTION recorded in the trusted base: a call
+    whose context is already done returns `ctx.Err()` before reaching the driver) -/
+def reached (cancelled : Nat → Bool) (calls : List Nat) : List Nat := calls.filter (fun c => !cancelled c)
+
+theorem C18_opstep_inv (c : Nat) (s : OpState) (o : OpStep) (hk : o.keeps)
+    (hst : ∀ h ∈ s.stack, h.ctx = c) :
+    (∀ h ∈ (s.step o).stack, h.ctx = c) ∧ (∀ x ∈ (s.step o).calls, x ∈ s.calls ∨ x = c) := by
+  cases o with
+  | enter d =>
+    cases hs : s.stack with
+    | nil => simp only [OpState.step, hs]; exact ⟨by simp, fun x hx => Or.inl hx⟩
+    | cons h rest =>
+      have hh : h.ctx = c := hst h (by simp [hs])
+      have hr : ∀ h' ∈ rest, h'.ctx = c := fun h' hm => hst h' (by simp [hs, hm])
+      have hd : (h.step d).ctx = c := by rw [C18_step_keeps h d hk, hh]
+      refine ⟨?_, ?_⟩
+      · intro h' hm
+        simp only [OpState.step, hs, List.mem_cons] at hm
+        rcases hm with rfl | rfl | hm
+        · exact hd
+        · exact hh
+        · exact hr h' hm
+      · intro x hx
+        simp only [OpState.step, hs] at hx
+        exact Or.inl hx
+  | leave =>
+    cases hs : s.stack with
+    | nil => simp only [OpState.step, hs]; exact ⟨by simp, fun x hx => Or.inl hx⟩
+    | cons h rest =>
+      cases rest with
+      | nil =>
+        refine ⟨?_, ?_⟩
+        · intro h' hm
+          simp only [OpState.step, hs] at hm
+          exact hst h' (by rw [hs]; exact hm)
+        · intro x hx
+          simp only [OpState.step, hs] at hx
+          exact Or.inl hx
+      | cons h2 rest2 =>
+        refine ⟨?_, ?_⟩
+        · intro h' hm
+          simp only [OpState.step, hs] at hm
+          exact hst h' (by rw [hs]; exact List.mem_cons_of_mem _ hm)
+        · intro x hx
+          simp only [OpState.step, hs] at hx
+          exact Or.inl hx
+  | call =>
+    cases hs : s.stack with
+    | nil => simp only [OpState.step, hs]; exact ⟨by simp, fun x hx => Or.inl hx⟩
+    | cons h rest =>
+      have hh : h.ctx = c := hst h (by simp [hs])
+      refine ⟨?_, ?_⟩
+      · intro h' hm
+        simp only [OpState.step, hs] at hm
+        exact hst h' (by rw [hs]; exact hm)
+      · intro x hx
+        simp only [OpState.step, hs, List.mem_cons] at hx
+        rcases hx with rfl | hx
+        · exact Or.inr hh
+        · exact Or.inl hx
+
+/-- from ANY state whose live handles are all bound to `c`, every driver call made later -- through
+    any tree of context-keeping derivations, at any depth -- carries `c` -/
+theorem C18_operation_calls_from (c : Nat) (s : OpState) (ops : List OpStep)
+    (hk : ∀ o ∈ ops, o.keeps) (hst : ∀ h ∈ s.stack, h.ctx = c) :
+    ∀ x ∈ (s.run ops).calls, x ∈ s.calls ∨ x = c := by
+  unfold OpState.run
+  induction ops generalizing s with
+  | nil => intro x hx; exact Or.inl hx
+  | cons o ops ih =>
+    intro x hx
+    simp only [List.foldl_cons] at hx
+    have hi := C18_opstep_inv c s o (hk o (by simp)) hst
+    rcases ih (s.step o) (fun o' ho' => hk o' (List.mem_cons_of_mem _ ho')) hi.1 x hx with h1 | h1
+    · exact hi.2 x h1
+    · exact Or.inr h1
+
+/-- MAIN (operation): EVERY driver call made on behalf of an operation started from a handle bound
+    to a context -- the main statement and every statement issued through internally derived handles,
+    nested to any depth, in any number and order -- receives exactly that context. -/
+theorem C18_operation_calls (h : Handle) (ops : List OpStep) (hk : ∀ o ∈ ops, o.keeps) :
+    ∀ x ∈ (runOp h ops).calls, x = h.ctx := by
+  intro x hx
+  rcases C18_operation_calls_from h.ctx { stack := [h], calls := [] } ops hk (by simp) x hx with h1 | h1
+  · simp at h1
+  · exact h1
+
+/-- MAIN (cancellation): with the bound context already cancelled, no statement of the operation
+    reaches the driver (given database/sql's check of the context it is handed). -/
+theorem C18_cancelled_runs_nothing (h : Handle) (ops : List OpStep) (hk : ∀ o ∈ ops, o.keeps)
+    (cancelled : Nat → Bool) (hc : cancelled h.ctx = true) :
+    reached cancelled (runOp h ops).calls = [] := by
+  unfold reached
+  rw [List.filter_eq_nil_iff]
+  intro x hx
+  rw [C18_operation_calls h ops hk x hx, hc]; simp
+
+/-- … and the number of calls carrying the bound context is the number of calls made: none is lost
+    to another context -/
+theorem C18_operation_all_bound (h : Handle) (ops : List OpStep) (hk : ∀ o ∈ ops, o.keeps) :
+    (runOp h ops).calls = List.replicate (runOp h ops).calls.length h.ctx :=
+  List.eq_replicate_iff.mpr ⟨rfl, C18_operation_calls h ops hk⟩
+
+/-- non-vacuity: a handle bound to 7, main statement, a preload session issuing two calls, back, one more -/
+example : ∃ u ∈ sessionUses, u.fn = "preloadDB" ∧
+    (runOp { ctx := 7, clone := 1 }
+      [.enter .getInstance, .call, .enter (.session u (SessFlags.ofList [])), .enter .getInstance, .call, .call,
+       .leave, .leave, .call]).calls = [7, 7, 7, 7] := by decide
+
 /-- non-vacuity: a concrete path through real call sites (preload session, callMethod session) -/
 example : ∃ u ∈ sessionUses, u.fn = "preloadDB" ∧ u.ctxField = some "db.Statement.Context" := by decide
 example : ({ ctx := 7, clone := 1 } : Handle).derive [.getInstance, .getInstance] = { ctx := 7, clone := 0 } := by decide
